@@ -205,7 +205,8 @@ def key_terms(exprs):
         if i in seen:
             continue
         seen.add(i)
-        if t.sort() == KeyS:
+        if t.sort() == KeyS and z3.is_app(t) and t.decl().kind() == z3.Z3_OP_UNINTERPRETED:
+            # constants and ksplit/kfold/kseed applications only (an ite of keys denotes one of its branches)
             out.append(t)
         if z3.is_app(t):
             stack.extend(t.children())
